@@ -76,7 +76,8 @@ async def run_all(ctx, tree, classes, rnd, out, store='mem'):
 
     async def one(n, c):
         r0 = random.Random(ctx.seed * 100003 + n)
-        L = r0.choice(LENS)
+        # entries read from a cache_dir: mostly objects of several slots / blocks, so that a range start is slots away from the previous read
+        L = r0.choice(LENS) if store == 'mem' else r0.choice([4097, 65537, 65537, 200001, 200001])
         v = (n % 4000) + 1
         ver[n] = (L, v)
         url = 'http://127.0.0.1:%d/r%s/%d' % (origin.port, store, n)
@@ -126,7 +127,10 @@ def run(ctx):
     # the same questions answered from a rock and a ufs cache_dir (a seeded sample of the cached classes; thorough: all of them)
     cached = [c for c in classes if c['par']['cached']]
     for store in ('rock', 'ufs'):
-        pick = cached if ctx.thorough else random.Random(ctx.seed * 17 + len(store)).sample(cached, min(200, len(cached)))
+        r1 = random.Random(ctx.seed * 17 + len(store))
+        singles_c = [c for c in cached if len(c['par']['specs']) == 1]
+        others_c = [c for c in cached if len(c['par']['specs']) != 1]
+        pick = cached if ctx.thorough else singles_c * 2 + r1.sample(others_c, min(150, len(others_c)))
         asyncio.run(run_all(ctx, tree, pick, rnd, out, store=store))
     ctx.cov['by_store'] = {st: sum(1 for c in out if c['store'] == st) for st in ('mem', 'rock', 'ufs')}
     cases = [{k: c[k] for k in ('status', 'specs', 'len', 'parts', 'fullOk')} for c in out]
